@@ -159,7 +159,7 @@ func runC13(p *eng.Prog, r *eng.Report, tier string) {
 	}
 	// ---- C13.6 / C13.7 over the core packages ----------------------------------------------------
 	wrapAliasing(c, "C13.6", []string{"stanza.", "stream."})
-	enumExhaustive(c, "C13.7", []string{"stanza", "stream"})
+	c.r.Floor("C13.7", "enumeration methods examined", enumExhaustive(c, "C13.7", []string{"stanza", "stream"}), 1)
 }
 
 // c13Discipline: every formatted/raw write goes to a whitelisted destination.
@@ -277,7 +277,7 @@ func wrapAliasing(c *cx, id string, prefixes []string) {
 // enumExhaustive: for every named string type with >= 2 constants, a method of
 // that type which mentions one of its constants (by name or by value) mentions
 // all of them.
-func enumExhaustive(c *cx, id string, rels []string) {
+func enumExhaustive(c *cx, id string, rels []string) int {
 	n := 0
 	for _, rel := range rels {
 		pk := c.p.Pkg(rel)
@@ -353,5 +353,5 @@ func enumExhaustive(c *cx, id string, rels []string) {
 			}
 		}
 	}
-	c.r.Floor(id, "enumeration methods examined", n, 1)
+	return n
 }
